@@ -47,6 +47,7 @@ type TimePoint struct {
 
 const (
 	SlotZero = -1000
+	Slot62   = 900 // 2^62 + BaseSlot: its start time (uint64 seconds, wrapping) is the one of BaseSlot
 	Slot63   = 1000
 	SlotMax  = 1001
 	RoundBig = 1000
@@ -59,6 +60,8 @@ func RealSlot(code int) uint64 {
 	switch code {
 	case SlotZero:
 		return 0
+	case Slot62:
+		return 1<<62 + BaseSlot
 	case Slot63:
 		return 1 << 63
 	case SlotMax:
